@@ -289,11 +289,12 @@ def first_failing(cmd_of, cases, nprinted):
     return None, ""
 
 # ------------------------------------------------------------------------------------------------ sequential part
-# Two groups of cases fail on tlx as shipped (docs/audit/C12.md, fixes/C12/01..03): handles stored inside managed objects
+# Two groups of cases fail on tlx as shipped (docs/audit/C12.md, fixes/C12/01..02): handles stored inside managed objects
 # (assignment / reset re-entrancy) and use_count() of an empty handle.  Until the coordinator has decided about the fixes
 # they are run but only reported as "open finding" notes; once corpus/C12/<name>.enabled exists they are checked like
 # everything else (a failure is a VIOLATION).
-def gate(name): return os.path.exists(os.path.join(verif.VERIF, "corpus", "C12", name + ".enabled"))
+def gate(name):
+    return os.path.exists(os.path.join(verif.VERIF, "corpus", "C12", name + ".enabled")) or name in os.environ.get("VERIF_C12_GATES", "").split(",")
 open_findings = []
 def open_finding(what, replay, key):
     if gate(key): return ck.violation(what, replay)
@@ -405,23 +406,29 @@ if cc_cases and drv is not None:
             if traces: samples.append({"case": cc_cases[int(traces[len(traces) // 2].split()[1])], "trace": traces[len(traces) // 2], "model": verdicts[len(traces) // 2] if len(traces) // 2 < len(verdicts) else ""})
 
 # ------------------------------------------------------------------------------------------------ handles inside managed objects
-NESTED_EXPECTED_OK = ["traverse", "cascade", "tree_swap_unify"]
-NESTED_OPEN = ["pop_copy", "pop_move", "pop_conv_copy", "pop_all", "self_reset", "self_assign_null", "self_move_assign", "self_copy_assign", "empty_use_count"]
+# In scope (docs/audit/C12.md): a history is in scope iff no object is (transitively) owned by itself and no handle is
+# assigned to while it is being destroyed.  Acyclic chains, trees, shared children, containers of handles are; an object that
+# keeps itself alive through a member handle is not: those scenarios are run for information only and never enter the verdict.
+NESTED_EXPECTED_OK = ["traverse", "cascade", "tree_swap_unify", "shared_child", "container", "tree"]
+NESTED_OPEN = ["pop_copy", "pop_move", "pop_conv_copy", "pop_all", "empty_use_count"]       # fail on tlx as shipped: findings F1, F3
+NESTED_INFO = ["self_reset", "self_assign_null", "self_move_assign", "self_copy_assign"]  # out of scope (self-owning object)
 nested_stats = {}
+nested_info = {}
 if not ck.replay or str(rp.get("case", "")).startswith("nested "):
     nexe, nlog = ck.build_cpp("c12_nested", ["harness/C12/nested_harness.cpp"])
     if nexe is None:
         ck.violation("nested-handle harness does not compile against /repo", {"correspondence": "harness/C12/nested_harness.cpp", "log": nlog[-2000:]}, no_input=True)
     else:
-        todo = NESTED_EXPECTED_OK + NESTED_OPEN
+        todo = NESTED_EXPECTED_OK + NESTED_OPEN + NESTED_INFO
         if ck.replay: todo = [str(rp["case"]).split()[1]]
         for sc in todo:
             rcn, outn = verif.sh([nexe, sc], timeout=120, env=dict(os.environ, ASAN_OPTIONS="detect_leaks=1"))
             okn = rcn == 0 and outn.strip().splitlines()[-1:] == ["ok"]
+            if sc in NESTED_INFO: nested_info[sc] = "ok" if okn else "fails"; continue
             nested_stats[sc] = "ok" if okn else "FAILS"
             if not okn:
                 found = True
-                what = "handles inside managed objects, scenario %s: %s" % (sc, (outn.strip().splitlines() or ["?"])[-1][:120] if rcn == 0 else "crash (assert/ASan/UBSan): " + (re.search(r"(ERROR: AddressSanitizer: [^\n]*|Assertion[^\n]*|runtime error: [^\n]*)", outn) or re.search(r".*", outn)).group(0)[:160])
+                what = ("use_count() of an empty handle (scenario %s): %s" if sc == "empty_use_count" else "handles inside managed objects, scenario %s: %s") % (sc, (outn.strip().splitlines() or ["?"])[-1][:120] if rcn == 0 else "crash (assert/ASan/UBSan): " + (re.search(r"(ERROR: AddressSanitizer: [^\n]*|Assertion[^\n]*|runtime error: [^\n]*)", outn) or re.search(r".*", outn)).group(0)[:160])
                 rpl = {"case": "nested " + sc, "log_tail": crash_excerpt(outn)}
                 if sc in NESTED_OPEN: open_finding(what, rpl, "empty_use_count" if sc == "empty_use_count" else "nested")
                 else: ck.violation(what, rpl)
@@ -468,6 +475,7 @@ ck.finish({
     "input_distribution": dict(stats, seq_ops=opstats, seq_variable_kinds=kstats, **conc_stats, stress_rounds_ok=stress_stats),
     "traces_validated_against_impl": conc_stats["interleavings"],
     "nested_handle_scenarios": nested_stats,
+    "out_of_scope_self_owning_object_scenarios_informational": nested_info,
     "open_findings_not_counted": [{"key": k, "what": w} for k, w in open_findings],
 }, assumptions=[
     "extraction: ExtrOcamlBasic only; nat/list stay Coq inductives",
